@@ -18,13 +18,14 @@ def frame_words(case):
 
 
 def bounded_depth(case):
-    """Depth of the terminating variant of a recursion program, or None when the frames of the bounded run (depth 2 =
-    three activations plus the caller) do not fit the stack budget of managed code (threads.rs STACK_SIZE, 500 KB on
-    every thread): for such frames 'stack overflow' is the correct answer of the bounded program as well."""
-    words = frame_words(case)
-    if words * 8 * 4 > 400_000:
-        return None
-    return 200 if words <= 64 else (5 if words <= 512 else 2)
+    """Depth of the terminating variant of a recursion program, or None when its frames cannot be expected to fit the
+    stack budget of managed code (threads.rs STACK_SIZE, 500 KB on every thread).  The frame of a function is a
+    multiple of its source-level size: the optimizing generator keeps several copies of a by-value aggregate (measured:
+    a 512-byte struct at depth 200 overflows 500 KB with boots and not with cannon), so the depth leaves a factor of 20.
+    When the bounded program overflows as well, 'stack overflow' is simply the correct answer for it."""
+    words = max(1, frame_words(case))
+    depth = min(200, 400_000 // (words * 8 * 20))
+    return depth if depth >= 2 else None
 
 
 def judge(case, r, rb):
